@@ -24,6 +24,8 @@ OracleErr(r) == ~r.ok /\ r.why \in {"oracle:helper", "oracle:part", "oracle:jrse
 
 PrefixCompatible(a, b) == \A i \in 1..(IF Len(a) < Len(b) THEN Len(a) ELSE Len(b)) : a[i] = b[i]
 
+\* the instance an aggregator runs: its events carry "algo" when it differs from the unit's (algorithm identifier mismatch)
+I(e) == IF "algo" \in DOMAIN e THEN [inst EXCEPT !.algo = e.algo] ELSE inst
 EventOK(e) ==
   CASE e.ev = "shard" ->
          LET enc == IF "raw" \in DOMAIN e THEN e.raw ELSE EncodeM(inst.c, e.m)
@@ -40,17 +42,17 @@ EventOK(e) ==
     [] e.ev = "vinit" ->
          \* dj = identifier under which the share bytes were decoded (its role); j = identifier used
          /\ PubDecodes(inst, e.pub) /\ (e.dj < inst.nagg => ShareDecodes(inst, e.dj, e.share))
-         /\ LET r == VInitShaped(X, inst, e.key, e.ctx, e.j, e.dj = 0, e.nonce, e.pub, e.share) IN
+         /\ LET r == VInitShaped(X, I(e), e.key, e.ctx, e.j, e.dj = 0, e.nonce, e.pub, e.share) IN
             /\ r.ok = e.ok /\ ~OracleErr(r)
             /\ e.ok => (r.vshare = e.vshare /\ r.state = e.state)
     [] e.ev = "s2m" ->
          /\ \A k \in 1..Len(e.vshares) : VShareDecodes(inst, e.vshares[k])
-         /\ LET r == S2M(X, inst, e.ctx, e.vshares) IN
+         /\ LET r == S2M(X, I(e), e.ctx, e.vshares) IN
             /\ r.ok = e.ok /\ ~OracleErr(r)
             /\ e.ok => r.msg = e.msg
     [] e.ev = "vnext" ->
          /\ StateDecodes(inst, e.j, e.state) /\ MsgDecodes(inst, e.msg)
-         /\ LET r == VNext(X, inst, e.ctx, e.j, e.state, e.msg) IN
+         /\ LET r == VNext(X, I(e), e.ctx, e.j, e.state, e.msg) IN
             /\ r.ok = e.ok /\ ~OracleErr(r)
             /\ e.ok => r.out = e.out
     [] e.ev = "agg" -> EncVec(AggShare(inst, e.outs)) = e.agg
